@@ -39,8 +39,8 @@ Bounds
             10 point-list (integer-array) fills per mode; persistence: every mode x lossless
             format x prior state {absent, stale defined tile, stale foreign bytes} x
             15 histories of 1..3 writes.
-  thorough: 4x4 image into 5x5 buffer exhaustively, 600 random large cases per mode and
-            operation, 100 point-list fills per mode, 150 histories per (mode, format, prior).
+  thorough: 5x5 image into 6x6 buffer exhaustively, 1500 random large cases per mode and
+            operation, 200 point-list fills per mode, 300 histories per (mode, format, prior).
 Trusted: numpy/PIL/astropy codecs; numpy fancy indexing to enumerate the addressed cells.
 Not covered: ``update`` with integer-array indexers (not a rectangle indexer; the repository
 only uses that form with ``fill``).
@@ -73,6 +73,14 @@ O_W_RAISE = "rt/PyramidIO.write_image/raises"
 O_R_RAISE = "rt/PyramidIO.read_image/raises"
 
 MASKABLE = [m for m in M.MODES if m != "RGB"]
+
+# The statement calls zero "undefined" for integer data and says that a tile whose pixels
+# are all undefined is never stored.  Read literally this covers an all-zero U8/I16/I32 tile
+# (the pinned tree stores such tiles: Image.is_completely_masked() is False for integer
+# modes).  The integer instance is reported under its own obligation name (O_W_INTZERO); set
+# this to False to restrict "never stored" to the modes with a dedicated undefined value
+# (alpha 0 / NaN), in which case an all-zero integer tile must read back like any other tile.
+INTEGER_ZERO_TILE_COUNTS_AS_UNDEFINED = True
 
 
 def mk_indexer(d):
@@ -313,6 +321,8 @@ def check_persist(spec, workdir):
         for k, content in enumerate(spec["steps"]):
             arr = M.random_array(mode, H, W, nprng, kind=content, dirty=bool(spec.get("dirty")))
             all_undef = bool(np.all(M.undef_mask(mode, arr)))
+            if mode in M.INT_MODES and not INTEGER_ZERO_TILE_COUNTS_AS_UNDEFINED:
+                all_undef = False
             tag = "step %d (%s)" % (k, content)
             try:
                 pio.write_image(pos, Image.from_array(arr.copy(), default_format=fmt), **kw)
@@ -401,7 +411,7 @@ def run(ctx):
         return rng.randrange(2 ** 31)
 
     # 1. exhaustive small rectangles
-    n_img, n_buf = (4, 5) if ctx.thorough else (3, 4)
+    n_img, n_buf = (5, 6) if ctx.thorough else (3, 4)
     rects = []
     for h in range(1, n_img + 1):
         for iy in range(0, n_img - h + 1):
@@ -429,7 +439,7 @@ def run(ctx):
                                   "content": "full", "old_content": "mixed", "src_mask": sm, "old_mask": om, "seed": seed()})
     ctx.bound("update: 2x2 rectangle, all 16 source masks x all 16 old-cell masks x 7 maskable modes x 2 row orders")
     # 3. random large cases, with the indexers used in the repository
-    nlarge = 600 if ctx.thorough else 60
+    nlarge = 1500 if ctx.thorough else 60
     for mode in M.MODES:
         for kind in ("fill", "update"):
             for _ in range(nlarge):
@@ -462,7 +472,7 @@ def run(ctx):
     ctx.bound("fill/update: %d random cases per mode and operation over the indexer families of merge.py (quadrants of 512x512), "
               "study.py (reversed row slice into 256x256), toast.py (slice(None)) and random rectangles <= 60" % nlarge)
     # 4. point-list fills (samplers.py chunk sampler form)
-    npts = 100 if ctx.thorough else 10
+    npts = 200 if ctx.thorough else 10
     for mode in M.MODES:
         for _ in range(npts):
             H, W = rng.randint(1, 50), rng.randint(1, 50)
@@ -477,7 +487,7 @@ def run(ctx):
             specs.append({"kind": "clear", "mode": mode, "buf_shape": [rng.choice([256, 512, 7]), rng.choice([256, 512, 5])], "seed": seed()})
     ctx.bound("fill with integer-array point lists (distinct buffer cells): %d per mode; clear(): 3 per mode" % npts)
     # 5. persistence
-    nhist = 150 if ctx.thorough else 15
+    nhist = 300 if ctx.thorough else 15
     for mode in M.MODES:
         for fmt in M.LOSSLESS[mode]:
             for prior in ("absent", "stale-defined", "stale-foreign"):
